@@ -3,6 +3,8 @@
   slicers/root.py  RootSlicer.__next__ / send      -> sendq_pop, sendq_push, send_idle_before_append, send_wakes
   banana.py        Banana.produce/pushSlicer/popSlicer/send  -> one serialization stack, top = last (checked; no value)
   broker.py        Broker.scheduleCall / doNextCall -> inq_push, inq_pop, head_of_line, ready_rearms, call_after_ready
+  broker.py        Broker._doCall                   -> schema check first; then the target -- a remotely callable object OR a bare
+                                                       callable (bound method / function) -- is invoked directly (checked)
   eventual.py      _SimpleCallQueue.append / _turn  -> evq_push, evq_iter, evq_snapshot
   referenceable.py LocalReferenceable.callRemote    -> local call goes through fireEventually (checked)
 
@@ -618,6 +620,34 @@ def generate():
             and U(chk.body[0].value.func) == "delivery.methodSchema.checkAllArgs" and len(chk.body[0].value.args) == 3
             and U(chk.body[0].value.args[2]) == "True"):
         raise P.Untranslatable("Broker._doCall: the schema check changed: " + U(chk))
+    # ... and the target gets control SYNCHRONOUSLY, inside _doCall, whatever kind of target it is: every `return` of
+    # _doCall hands back the value of the invocation itself -- `obj(*args, **kwargs)` for a bare callable (methodname is
+    # None: bound method / function, negative clid) or `<local>.doRemoteCall(delivery.methodname, args, kwargs)` -- and
+    # nothing in _doCall postpones work (no eventual-send, no timer, no Deferred chaining, no nested function)
+    rets = [n for n in ast.walk(dc) if isinstance(n, ast.Return)]
+    kinds = set()
+    for r in rets:
+        v = r.value
+        if isinstance(v, ast.Call) and isinstance(v.func, ast.Name) and U(v) == "%s(*args, **kwargs)" % v.func.id:
+            kinds.add("callable")
+        elif isinstance(v, ast.Call) and isinstance(v.func, ast.Attribute) and isinstance(v.func.value, ast.Name) \
+                and v.func.attr == "doRemoteCall" and [U(a) for a in v.args] == ["delivery.methodname", "args", "kwargs"] and not v.keywords:
+            kinds.add("method")
+        else:
+            raise P.Untranslatable("Broker._doCall: a return that is not the direct invocation of the target: " + U(r))
+    if kinds != {"callable", "method"}:
+        raise P.Untranslatable("Broker._doCall no longer invokes both kinds of target (bare callable / remotely callable object) directly")
+    for n in ast.walk(dc):
+        if n is not dc and isinstance(n, (ast.FunctionDef, ast.Lambda, ast.AsyncFunctionDef, ast.Yield, ast.YieldFrom, ast.Await)):
+            raise P.Untranslatable("Broker._doCall contains a nested function / lambda / yield: the target may get control later")
+        if isinstance(n, (ast.Name, ast.Attribute)) and (n.id if isinstance(n, ast.Name) else n.attr) in (
+                "eventually", "fireEventually", "callLater", "addCallback", "addCallbacks", "addBoth", "maybeDeferred", "deferLater"):
+            raise P.Untranslatable("Broker._doCall postpones work: " + (n.id if isinstance(n, ast.Name) else n.attr))
+    sel = [st for st in top if isinstance(st, ast.If) and U(st.test) == "delivery.methodname is None"]
+    if len(sel) != 1 or not any(isinstance(x, ast.Return) for x in sel[0].body):
+        raise P.Untranslatable("Broker._doCall: the choice between the two kinds of target is no longer `if delivery.methodname is None:`")
+    out.append("Definition docall_enters_target_synchronously : bool := true.   (* Broker._doCall: every return is the direct invocation "
+               "of the bare callable with the received arguments / X.doRemoteCall(delivery.methodname, args, kwargs); nothing is postponed (checked; no value) *)")
 
     # ---------------------------------------------------------------- the Deferred network of third-party references
     gen_gift_network(out, bro, ref)
